@@ -297,9 +297,19 @@ fn try_to_find_node_by_xml_name_in_xml_doc<'n>(
                     return Err(WriterError::NodeNotFound(format!("{xml_name} (cyclic reference)")));
                 }
 
+                // the component is read in the context of its own schema (another inline schema of a WSDL, perhaps):
+                // that schema's target namespace and the prefixes in scope there; afterwards the referring
+                // component is continued with its own
+                let saved_lookup = doc.namespace_lookup.clone();
+                let saved_target_namespace = doc.current_target_namespace.clone();
+                if let Some(target_namespace) = schema.attribute("targetNamespace") {
+                    doc.switch_to_target_namespace(target_namespace);
+                }
                 doc.resolving.push(node.id());
                 let rust_node = RustNode::try_from_node(node, doc);
                 doc.resolving.pop();
+                doc.namespace_lookup = saved_lookup;
+                doc.current_target_namespace = saved_target_namespace;
 
                 let rust_node = Rc::new(rust_node?);
                 doc.resolved.insert(node.id(), rust_node.clone());
